@@ -1630,6 +1630,125 @@ def _safe(fn):
     return wrapped
 
 
+# ---------------------------------------------------------------------------
+# R6 memoised parsing helpers hand out values nobody mutates (added in the
+# build round; shares its purpose with C19 R3)
+# ---------------------------------------------------------------------------
+
+_R6_MUTATORS = ('pop', 'popitem', 'clear', 'update', 'setdefault', 'append', 'extend', 'insert', 'remove', 'sort', 'reverse',
+                'add', 'discard', '__setitem__', '__delitem__')
+
+
+def r6_memo_results_immutable(run):
+    """quality()/best_match() are pure functions of their two strings only if
+    every memoised helper below them keeps returning the same *value*: an
+    object handed out by an lru_cache is shared by all later calls with that
+    key, so a caller that mutates it (params.pop('q')) changes what the next
+    call computes.  W: a range with a quoted parameter and a q parsed twice
+    under different cache keys scores q=1.0 the second time."""
+    p = run.project
+    mod = p.module('falcon.util.mediatypes')
+    funcs = [f for f in p.all_functions('falcon.util.mediatypes.')]
+    by_qual = {f.qual: f for f in funcs}
+    cached: Set[str] = set()
+    for f in funcs:
+        for d in f.node.decorator_list:
+            dq = p.resolve_expr(mod, d.func if isinstance(d, ast.Call) else d, None)
+            if dq in ('functools.lru_cache', 'functools.cache'):
+                cached.add(f.qual)
+    alias_of: Dict[str, str] = {}
+    for name, val in mod.consts.items():
+        if isinstance(val, ast.Call) and p.resolve_expr(mod, val.func, None) in ('functools.lru_cache', 'functools.cache') and val.args:
+            t = p.resolve_callable(_ModFunc(mod), val.args[0])
+            if isinstance(t, Func):
+                cached.add(t.qual)
+                alias_of[mod.name + '.' + name] = t.qual
+    if len(cached) < 3:
+        raise AnchorError('memoised helpers of falcon.util.mediatypes not found (%d)' % len(cached))
+
+    def callee_qual(f, call):
+        t = p.resolve_callable(f, call.func)
+        if isinstance(t, Func):
+            return t.qual
+        if isinstance(t, str):
+            return alias_of.get(t)
+        q = p.resolve_expr(f.module, call.func, f)
+        return alias_of.get(q) if q else None
+
+    # T: functions whose return value may be (or contain) an object held by a cache
+    def tainted_names(f, T):
+        out: Set[str] = set()
+        for n in walk_self(f.node):
+            if isinstance(n, ast.Assign) and isinstance(n.value, ast.Call) and callee_qual(f, n.value) in T:
+                for t in n.targets:
+                    for x in ast.walk(t):
+                        if isinstance(x, ast.Name):
+                            out.add(x.id)
+        return out
+
+    T = set(cached)
+    changed = True
+    while changed:
+        changed = False
+        for f in funcs:
+            if f.qual in T:
+                continue
+            tn = tainted_names(f, T)
+            for r in walk_self(f.node):
+                if not (isinstance(r, ast.Return) and r.value is not None):
+                    continue
+                hit = any((isinstance(x, ast.Call) and callee_qual(f, x) in T) or (isinstance(x, ast.Name) and x.id in tn)
+                          for x in ast.walk(r.value))
+                if hit:
+                    T.add(f.qual)
+                    changed = True
+                    break
+    n_sites = 0
+    for f in funcs:
+        tainted: Set[str] = set()
+        for n in walk_self(f.node):
+            if isinstance(n, ast.Assign) and isinstance(n.value, ast.Call) and callee_qual(f, n.value) in T:
+                for t in n.targets:
+                    for x in ast.walk(t):
+                        if isinstance(x, ast.Name):
+                            tainted.add(x.id)
+                n_sites += 1
+        if not tainted:
+            continue
+        bad = None
+        for n in walk_self(f.node):
+            if isinstance(n, ast.Call) and isinstance(n.func, ast.Attribute) and n.func.attr in _R6_MUTATORS \
+                    and isinstance(n.func.value, ast.Name) and n.func.value.id in tainted:
+                bad = n
+            elif isinstance(n, (ast.Assign, ast.AugAssign, ast.Delete)):
+                tg = n.targets if isinstance(n, (ast.Assign, ast.Delete)) else [n.target]
+                for t in tg:
+                    if isinstance(t, (ast.Subscript, ast.Attribute)) and isinstance(t.value, ast.Name) and t.value.id in tainted:
+                        bad = n
+            if bad is not None:
+                break
+        run.check(bad is None, 'objects obtained from a memoised parsing helper are not mutated by %s' % f.name, f,
+                  bad if bad is not None else 'no mutation of %s' % ', '.join(sorted(tainted)), where=f.loc(bad),
+                  runtime_witness='parse "text/plain;charset=\"utf-8\";q=0" twice under different Accept headers: the second parse sees no q (q=1.0)')
+    if n_sites < 1:
+        # today's tree binds such results in at least _MediaRange.parse / quality / best_match
+        raise AnchorError('no call site binding the result of a memoised helper found')
+
+
+class _ModFunc:
+    """minimal Func stand-in for module-level resolution"""
+
+    def __init__(self, module):
+        self.module = module
+        self.parent = None
+        self.nested = {}
+        self.cls = None
+        self.node = ast.parse('def _m(): pass').body[0]
+
+    def params(self):
+        return []
+
+
 def check(run):
     run.assume('E5: str/bytes/re/dict.get methods and in-range subscripts are total; unresolved external callees do not raise unless tabled')
     run.assume('functools.lru_cache wrappers re-raise exactly what the wrapped function raises')
@@ -1638,3 +1757,4 @@ def check(run):
     run.rule('R3', _safe(r3_cache_coherence), 'every direct writer of Handlers.data in the MRO clears the resolver cache; resolver per instance', floor=20)
     run.rule('R4', _safe(r4_resolution), 'resolver: default fallback, exact first, best match over current keys, 415 iff unmatched and asked', floor=8)
     run.rule('R5', _safe(r5_client_negotiation), 'client_accepts/client_prefers map ValueError to False/None', floor=5)
+    run.rule('R6', _safe(r6_memo_results_immutable), 'values handed out by memoised parsing helpers are never mutated by their callers', floor=1)
